@@ -15,7 +15,7 @@ RULE = (
     "swapped, defaults moved along; a quarter of the programs have one dependency-closed group wrapped as a nested "
     "graph, with the narrowing then configured by select() on the graph as often as passed to run(); every eighth "
     "program is a mapping node around a small DAG whose inner graph binds a broadcast input that the caller "
-    "overrides or not), each run in original and shuffled node order under the "
+    "overrides or not; plus chains whose default and upstream value are equal but not the same value - 1, 1.0, True), each run in original and shuffled node order under the "
     "sync and async runner and compared with RefEval (values, last-invocation arguments, exactly-once set, "
     "never-run set). A case is non-trivial when at least 2 node functions were observed entering and the "
     "result has at least one value; distinct = distinct canonical shape (kinds, arities, wiring, defaults, bindings, "
@@ -90,14 +90,57 @@ def core_all_fids(spec):
     return all_fids(spec)
 
 
+EQUALS = [1, True, 1.0, 0, False, 0.0, "1", (), "", 2]
+
+
+def equal_but_different(ctx):
+    """prod(x)->a, mid(a=<default>)->b (passes a through), last(b)->c = repr(b): `mid` first runs on its default and
+    again when `a` arrives. When the default and the upstream value are EQUAL but not the same value (1, 1.0, True)
+    the final c must still be computed from the final b."""
+    from hypergraph import AsyncRunner, FunctionNode, Graph, SyncRunner
+    import asyncio
+
+    rng = ctx.rng
+    pairs = [(x, d) for x in EQUALS for d in EQUALS]
+    if ctx.tier == "quick":
+        pairs = rng.sample(pairs, 30)
+    for x, d in pairs:
+        rt.reset_program()
+        fns = {}
+        for name, params in (("prod", [{"n": "x"}]), ("mid", [{"n": "a", "d": d}]), ("last", [{"n": "b"}])):
+            fid = f"eq/{name}"
+            fns[name] = rt.make_function(name, fid, params)
+            rt.KIND[fid] = "fn"
+        rt.BEH["eq/prod"] = lambda kw: kw["x"]
+        rt.BEH["eq/mid"] = lambda kw: kw["a"]
+        rt.BEH["eq/last"] = lambda kw: repr(kw["b"])
+        g = Graph([FunctionNode(fns["prod"], name="prod", output_name="a"), FunctionNode(fns["mid"], name="mid", output_name="b"), FunctionNode(fns["last"], name="last", output_name="c")], name="eq")
+        for runner in ("sync", "async"):
+            rt.new_rec()
+            r = SyncRunner().run(g, {"x": x}) if runner == "sync" else asyncio.run(AsyncRunner().run(g, {"x": x}))
+            ctx.obs["equal_value_chains"] += 1
+            ctx.obs["values_compared"] += 3
+            exp = {"a": x, "b": x, "c": repr(x)}
+            got = {k: r.values.get(k) for k in exp}
+            if repr(got) != repr(exp):
+                ctx.violation("C01:values:wrong", f"{runner}: prod({x!r})->a, mid(a={d!r})->b, last(b)->repr: got {got!r}, dependency-order evaluation gives {exp!r}", {"program": "equal-but-different chain", "x": repr(x), "default": repr(d), "runner": runner})
+    ctx.case({"directed": "equal-but-different"}, True)
+
+
 def run(ctx):
     n = 150 if ctx.tier == "quick" else 9000
     if ctx.replay:
         c = ctx.replay["case"]
+        if "spec" not in c:
+            equal_but_different(ctx)
+            ctx.case("replay2")
+            return
         check_case(ctx, c["spec"], c["provided"], c["select"], c["runner"], "replay")
         ctx.case(gen.shape_of(c["spec"]))
         ctx.case("replay2")
         return
+    if ctx.shard[0] == 0:
+        equal_but_different(ctx)
     for i in range(n):
         rng = ctx.rng
         if i % 8 == 7:
